@@ -579,3 +579,125 @@ Qed.
 (* the join kind does not change, every corner moves by d *)
 Lemma tr_join_kind d j : lj_kind (tr_join d j) = lj_kind j.
 Proof. reflexivity. Qed.
+
+(* ================================================================================================ *)
+(* (6) scanlines, thick segments, the thick polyline pipeline                                        *)
+(* ================================================================================================ *)
+From EG Require Import Proofs.Geometry Proofs.Line.
+
+(* An empty scanline has no position (Scanline::new_empty is y, 0..0 wherever it is used), so "moved by d" is:
+   same emptiness, and the x range moved when it is not empty *)
+Definition sl_rel (d : point) (s s' : scanline) : Prop :=
+  sl_y s' = sl_y s + py d /\
+  ((sl_is_empty s = true /\ sl_is_empty s' = true) \/
+   (sl_is_empty s = false /\ sl_x0 s' = sl_x0 s + px d /\ sl_x1 s' = sl_x1 s + px d)).
+
+Lemma sl_rel_empty d s s' : sl_rel d s s' -> sl_is_empty s' = sl_is_empty s.
+Proof.
+  intros [_ [[E1 E2]|[E1 [H0 H1]]]]; [congruence|].
+  unfold sl_is_empty in *. rewrite H0, H1.
+  destruct (sl_x0 s <? sl_x1 s) eqn:A; destruct (sl_x0 s + px d <? sl_x1 s + px d) eqn:B; try reflexivity; lia.
+Qed.
+
+Lemma sl_rel_new_empty d y : sl_rel d (sl_new_empty y) (sl_new_empty (y + py d)).
+Proof. split; [reflexivity | left; split; reflexivity]. Qed.
+
+Lemma sl_extend_rel d s s' x : sl_rel d s s' -> sl_rel d (sl_extend s x) (sl_extend s' (x + px d)).
+Proof.
+  intros R. pose proof (sl_rel_empty _ _ _ R) as E. destruct R as [Y [[E1 E2]|[E1 [H0 H1]]]].
+  - unfold sl_extend. rewrite E1, E2. split; [exact Y|]. right. cbn [sl_x0 sl_x1].
+    unfold sl_is_empty; cbn [sl_x0 sl_x1]. split; [|lia].
+    destruct (x <? x + 1) eqn:A; [reflexivity | lia].
+  - unfold sl_extend. rewrite E, E1.
+    destruct (x <? sl_x0 s) eqn:A; destruct (x + px d <? sl_x0 s') eqn:A'; try lia.
+    + split; [exact Y|]. right. unfold sl_is_empty in *; cbn [sl_x0 sl_x1].
+      split; [|lia]. destruct (x <? sl_x1 s) eqn:B; [reflexivity|].
+      destruct (sl_x0 s <? sl_x1 s) eqn:C; [lia | discriminate].
+    + destruct (sl_x1 s <=? x) eqn:B; destruct (sl_x1 s' <=? x + px d) eqn:B'; try lia.
+      * split; [exact Y|]. right. unfold sl_is_empty in *; cbn [sl_x0 sl_x1].
+        split; [|lia]. destruct (sl_x0 s <? x + 1) eqn:C; [reflexivity | lia].
+      * split; [exact Y|]. right. auto.
+Qed.
+
+Lemma take_while_map {A B} (f : B -> bool) (g : A -> B) l :
+  take_while f (map g l) = map g (take_while (fun x => f (g x)) l).
+Proof. induction l as [|x t IH]; [reflexivity|]. cbn. destruct (f (g x)); [rewrite IH|]; reflexivity. Qed.
+
+Lemma skip_while_map {A B} (f : B -> bool) (g : A -> B) l :
+  skip_while f (map g l) = map g (skip_while (fun x => f (g x)) l).
+Proof. induction l as [|x t IH]; [reflexivity|]. cbn. destruct (f (g x)); [rewrite IH|]; reflexivity. Qed.
+
+Lemma take_while_ext {A} (f g : A -> bool) l : (forall x, f x = g x) -> take_while f l = take_while g l.
+Proof. intros H. induction l as [|x t IH]; [reflexivity|]. cbn. rewrite H, IH. reflexivity. Qed.
+
+Lemma skip_while_ext {A} (f g : A -> bool) l : (forall x, f x = g x) -> skip_while f l = skip_while g l.
+Proof. intros H. induction l as [|x t IH]; [reflexivity|]. cbn. rewrite H, IH. reflexivity. Qed.
+
+Lemma fold_extend_rel d : forall (l : list point) s s', sl_rel d s s' ->
+  sl_rel d (fold_left (fun acc p => sl_extend acc (px p)) l s)
+           (fold_left (fun acc p => sl_extend acc (px p)) (map (fun p => padd p d) l) s').
+Proof.
+  induction l as [|p t IH]; intros s s' R; [exact R|].
+  cbn [map fold_left]. apply IH. change (px (padd p d)) with (px p + px d). apply sl_extend_rel. exact R.
+Qed.
+
+(* Scanline::bresenham_intersection commutes with translation *)
+Lemma bresenham_intersection_rel d s s' l : sl_rel d s s' ->
+  sl_rel d (bresenham_intersection s l) (bresenham_intersection s' (translate_line l d)).
+Proof.
+  intros R. unfold bresenham_intersection. destruct R as [Y R']. rewrite Y.
+  change (py (l_start (translate_line l d))) with (py (l_start l) + py d).
+  change (py (l_end (translate_line l d))) with (py (l_end l) + py d).
+  assert (C : ((Z.min (py (l_start l) + py d) (py (l_end l) + py d) <=? sl_y s + py d) &&
+               (sl_y s + py d <=? Z.max (py (l_start l) + py d) (py (l_end l) + py d))) =
+              ((Z.min (py (l_start l)) (py (l_end l)) <=? sl_y s) && (sl_y s <=? Z.max (py (l_start l)) (py (l_end l))))).
+  { destruct ((Z.min (py (l_start l)) (py (l_end l)) <=? sl_y s) && (sl_y s <=? Z.max (py (l_start l)) (py (l_end l)))) eqn:A;
+    destruct ((Z.min (py (l_start l) + py d) (py (l_end l) + py d) <=? sl_y s + py d) &&
+              (sl_y s + py d <=? Z.max (py (l_start l) + py d) (py (l_end l) + py d))) eqn:B; try reflexivity; lia. }
+  rewrite C. destruct (negb _); [split; assumption|].
+  rewrite line_points_translate, skip_while_map, take_while_map.
+  assert (Q : forall p : point, (py (padd p d) =? sl_y s + py d) = (py p =? sl_y s)).
+  { intros p. change (py (padd p d)) with (py p + py d).
+    destruct (py p =? sl_y s) eqn:A; destruct (py p + py d =? sl_y s + py d) eqn:B; try reflexivity; lia. }
+  rewrite (skip_while_ext (fun x => negb (py (padd x d) =? sl_y s + py d)) (fun p => negb (py p =? sl_y s)))
+    by (intros p; rewrite Q; reflexivity).
+  rewrite (take_while_ext (fun x => py (padd x d) =? sl_y s + py d) (fun p => py p =? sl_y s)) by (intros p; apply Q).
+  apply fold_extend_rel. split; assumption.
+Qed.
+
+Lemma in_incl_shift a b x k : in_incl (a + k) (b + k) (x + k) = in_incl a b x.
+Proof.
+  unfold in_incl. destruct (a <=? x) eqn:A; destruct (a + k <=? x + k) eqn:A'; try lia;
+  destruct (x <=? b) eqn:B; destruct (x + k <=? b + k) eqn:B'; try lia; reflexivity.
+Qed.
+
+Lemma sl_touches_rel d s s' o o' : sl_rel d s s' -> sl_rel d o o' -> sl_touches s' o' = sl_touches s o.
+Proof.
+  intros Rs Ro. unfold sl_touches.
+  rewrite (sl_rel_empty _ _ _ Rs), (sl_rel_empty _ _ _ Ro).
+  destruct Rs as [_ [[E1 E2]|[E1 [A0 A1]]]]; [rewrite E1; reflexivity|].
+  destruct Ro as [_ [[F1 F2]|[F1 [B0 B1]]]]; [rewrite F1, orb_true_r; reflexivity|].
+  rewrite E1, F1. cbn [orb]. rewrite A0, A1, B0, B1.
+  replace (sl_x0 s + px d - 1) with (sl_x0 s - 1 + px d) by ring.
+  replace (sl_x0 o + px d - 1) with (sl_x0 o - 1 + px d) by ring.
+  replace (sl_x1 o + px d - 1) with (sl_x1 o - 1 + px d) by ring.
+  replace (sl_x1 s + px d - 1) with (sl_x1 s - 1 + px d) by ring.
+  rewrite !in_incl_shift. reflexivity.
+Qed.
+
+Lemma sl_try_extend_rel d s s' o o' : sl_rel d s s' -> sl_rel d o o' ->
+  fst (sl_try_extend s' o') = fst (sl_try_extend s o) /\
+  sl_rel d (snd (sl_try_extend s o)) (snd (sl_try_extend s' o')).
+Proof.
+  intros Rs Ro. unfold sl_try_extend. rewrite (sl_touches_rel _ _ _ _ _ Rs Ro).
+  destruct (sl_touches s o) eqn:T; cbn [fst snd]; [|split; [reflexivity | exact Rs]].
+  split; [reflexivity|].
+  unfold sl_touches in T.
+  destruct (sl_is_empty s) eqn:E1; [discriminate|]. destruct (sl_is_empty o) eqn:F1; [discriminate|].
+  destruct Rs as [Y [[E1' _]|[_ [A0 A1]]]]; [congruence|].
+  destruct Ro as [_ [[F1' _]|[_ [B0 B1]]]]; [congruence|].
+  split; [exact Y|]. right. cbn [sl_x0 sl_x1]. unfold sl_is_empty in *; cbn [sl_x0 sl_x1].
+  split; [|lia].
+  destruct (Z.min (sl_x0 s) (sl_x0 o) <? Z.max (sl_x1 s) (sl_x1 o)) eqn:C; [reflexivity|].
+  destruct (sl_x0 s <? sl_x1 s) eqn:D; [lia | discriminate].
+Qed.
